@@ -5,6 +5,10 @@
 
 package requests
 
+// Bits are abstract here: what Get/Set/Reset do to them is known from the
+// contracts proved in package bitmap, not from the byte representation.
+//@ opaque Bit
+
 // Representation invariant of the request queue: every queued or sent block
 // has its membership bit set, and no block occurs twice (neither within a
 // list nor across the two lists). Hence Enqueue -- which refuses a block whose
@@ -57,3 +61,99 @@ package requests
 //@   ensures  [distqr] RDistQR(rs)
 //@   ensures  [sep]    RSep(rs)
 //@   props    C11 C09
+
+// Dequeue: takes the head of the queue out of the structure altogether (its
+// bit is cleared: the caller either sends it and calls EnqueueRequest, or
+// drops it).
+//@ func (*Requests).Dequeue
+//@   requires rs != nil && ROK(rs) && len(rs.queue) > 0
+//@   modifies rs.queue, rs.bitmap[_]
+//@   ensures  [head]   $r1 == old(rs.queue[0].index) && $r0.index == $r1
+//@   ensures  [out]    !Member(rs, int($r1))
+//@   ensures  [len]    len(rs.queue) == old(len(rs.queue)) - 1 && len(rs.requested) == old(len(rs.requested))
+//@   ensures  [shift]  forall k int :: 0 <= k && k < len(rs.queue) ==> rs.queue[k].index == old(rs.queue[k+1].index)
+//@   ensures  [bitsq]  RBitsQ(rs)
+//@   ensures  [bitsr]  RBitsR(rs)
+//@   ensures  [distq]  RDistQ(rs)
+//@   ensures  [distr]  RDistR(rs)
+//@   ensures  [distqr] RDistQR(rs)
+//@   ensures  [sep]    RSep(rs)
+//@   props    C11 C09
+
+// EnqueueRequest: records a request as outstanding; only legal for a block
+// that is not a member (the code panics otherwise).
+//@ func (*Requests).EnqueueRequest
+//@   requires rs != nil && ROK(rs) && !Member(rs, int(r.index))
+//@   modifies rs.requested, rs.requested[__], rs.bitmap, rs.bitmap[__]
+//@   ensures  [len]    len(rs.requested) == old(len(rs.requested)) + 1 && len(rs.queue) == old(len(rs.queue)) && rs.requested[len(rs.requested)-1].index == r.index
+//@   ensures  [in]     Member(rs, int(r.index))
+//@   ensures  [bitsq]  RBitsQ(rs)
+//@   ensures  [bitsr]  RBitsR(rs)
+//@   ensures  [distq]  RDistQ(rs)
+//@   ensures  [distr]  RDistR(rs)
+//@   ensures  [distqr] RDistQR(rs)
+//@   ensures  [sep]    RSep(rs)
+//@   props    C11 C09
+
+// del: removes the block from whichever list holds it and clears its bit;
+// nothing else changes membership.
+//@ func (*Requests).del
+//@   requires rs != nil && ROK(rs)
+//@   modifies rs.requested, rs.requested[_], rs.queue, rs.queue[_], rs.bitmap[_]
+//@   ensures  [absent] !old(Member(rs, int(index))) ==> !$r0 && !$r1 && len(rs.queue) == old(len(rs.queue)) && len(rs.requested) == old(len(rs.requested))
+//@   ensures  [sent]   $r1 ==> !$r0 && len(rs.requested) == old(len(rs.requested)) - 1 && len(rs.queue) == old(len(rs.queue)) && !Member(rs, int(index))
+//@   ensures  [queued] $r0 ==> !$r1 && len(rs.queue) == old(len(rs.queue)) - 1 && len(rs.requested) == old(len(rs.requested)) && !Member(rs, int(index))
+//@   ensures  [none]   !$r0 && !$r1 ==> len(rs.queue) == old(len(rs.queue)) && len(rs.requested) == old(len(rs.requested))
+//@   ensures  [bitsq]  RBitsQ(rs)
+//@   ensures  [bitsr]  RBitsR(rs)
+//@   ensures  [distq]  RDistQ(rs)
+//@   ensures  [distr]  RDistR(rs)
+//@   ensures  [distqr] RDistQR(rs)
+//@   ensures  [sep]    RSep(rs)
+//@   waive    panic :: "Requests is broken!" needs the converse invariant (a set bit implies membership in one of the lists), which is not part of what C11/C09 rely on
+//@   props    C11 C09
+
+//@ func (*Requests).Del
+//@   inline
+//@ func (*Requests).DelRequested
+//@   inline
+
+// Cancel: marks, never removes: membership and both lists keep their blocks.
+//@ func (*Requests).Cancel
+//@   requires rs != nil && ROK(rs)
+//@   modifies heap:E:github.com/jech/storrent/peer/requests.Request.ctime*
+//@   ensures  [found]  $r0 ==> Member(rs, int(index))
+//@   ensures  [send]   $r1 ==> $r0
+//@   ensures  [lens]   len(rs.queue) == old(len(rs.queue)) && len(rs.requested) == old(len(rs.requested))
+//@   ensures  [bitsq]  RBitsQ(rs)
+//@   ensures  [bitsr]  RBitsR(rs)
+//@   ensures  [distq]  RDistQ(rs)
+//@   ensures  [distr]  RDistR(rs)
+//@   ensures  [distqr] RDistQR(rs)
+//@   props    C11 C09
+
+// Clear: forgets the queue (and, if both, the outstanding requests too),
+// reporting every forgotten block exactly once to f; the bitmap is rebuilt
+// from what remains.
+//@ func (*Requests).Clear
+//@   requires rs != nil && ROK(rs) && f != nil
+//@   callback f pure
+//@   modifies rs.queue, rs.requested, rs.bitmap, heap:A:uint8
+//@   ensures  [queue]  len(rs.queue) == 0
+//@   ensures  [both]   both ==> len(rs.requested) == 0 && rs.bitmap == nil
+//@   ensures  [keep]   !both ==> len(rs.requested) == old(len(rs.requested))
+//@   ensures  [bitsq]  RBitsQ(rs)
+//@   ensures  [bitsr]  RBitsR(rs)
+//@   ensures  [distq]  RDistQ(rs)
+//@   ensures  [distr]  RDistR(rs)
+//@   ensures  [distqr] RDistQR(rs)
+//@   loop 1
+//@     invariant rs.queue == nil && samearr_(rs.requested, oldr) && len(rs.requested) == len(oldr) && len(oldr) == old(len(rs.requested)) && (rs.bitmap == nil || fresh_(rs.bitmap))
+//@     invariant [bits] forall k int :: 0 <= k && k < $i ==> Member(rs, int(oldr[k].index))
+//@     invariant [distr] RDistR(rs)
+//@   props    C11 C09
+
+//@ spec NQueued(rs *Requests) int
+//@   body len(rs.queue)
+//@ spec NSent(rs *Requests) int
+//@   body len(rs.requested)
